@@ -354,11 +354,10 @@ def tuple_eq_ok(f, n):
 
 
 def array_eq_ok(f):
-    body = f[4]
+    body = A.inline_lets(f[4])  # `let n = a.len()` stands for a.len()
     a, b = [p[0] for p in f[2]]
     if body[0] != "block":
         return False, "body is not a block"
-    txt = [A.show(s[1]) if s[0] == "expr" else s[0] for s in body[1]]
     len_check = any(s[0] == "expr" and s[1][0] == "if" and A.show(s[1][1]) in (f"({a}.len() != {b}.len())", f"({b}.len() != {a}.len())") and any(x[0] == "return" and x[1] == ("bool", False, x[1][-1]) for x in A.walk(s[1][2]) if isinstance(x, tuple) and x and x[0] == "return") for s in body[1])
     loop = [s for s in body[1] if s[0] == "for"]
     elem = False
@@ -397,10 +396,29 @@ def hash_laws(ctx, r):
         if ty.startswith("("):
             params = [p[0] for p in f[2]]
             comps = destructure(body[1], params[0]) if body[0] == "block" else None
-            fed = []
+            # the accumulator is followed through its bindings (`h = hash_combine(h, a)` or `let h1 = hash_combine(17, a)`):
+            # what counts is the sequence of components folded into the value the method returns
+            chain = {}
+
+            def fold(e):
+                if e[0] == "call" and A.show(e[1]) == "hash_combine" and len(e[2]) == 2:
+                    acc = fold(e[2][0][1])
+                    return None if acc is None else acc + [A.show(e[2][1][1])]
+                if e[0] == "var":
+                    return chain.get(e[1])
+                if e[0] in ("int", "num", "lit"):
+                    return []
+                return None
+
+            fed = None
             for s in body[1] if body[0] == "block" else []:
-                if s[0] == "assign" and s[3][0] == "call" and A.show(s[3][1]) == "hash_combine":
-                    fed.append(A.show(s[3][2][1][1]))
+                if s[0] == "let" and s[2][0] == "pbind":
+                    chain[s[2][1]] = fold(s[4])
+                elif s[0] == "assign" and s[2][0] == "var":
+                    chain[s[2][1]] = fold(s[3])
+                elif s[0] == "expr":
+                    fed = fold(s[1])
+            fed = fed or []
             r.ob(comps is not None and fed == comps, key + ":components", PRELUDE, f[-1], f"Hash for {ty} must feed every component, in order, to hash_combine: components {comps}, fed {fed}", sample=f"Hash for {ty}: feeds {fed}")
         elif ty.startswith("array"):
             loops = [s for s in body[1] if s[0] == "for"] if body[0] == "block" else []
@@ -767,31 +785,35 @@ def hash_arith(ctx, r):
     for f in fns:
         if f[4] is None:
             continue
-        tainted = set()
+        tainted = {p[0] for p in f[2] if p[0] in ("hash_code", "hash")}
+
+        def is_hash(src):
+            """a hash code: the result of Hash.hash, a stored hash, or a name bound to one (written in place or through a local)"""
+            return (src[0] == "call" and A.show(src[1]) == "Hash.hash") or (src[0] == "index" and A.show(src[1]).endswith("entry_hashes")) or (src[0] == "var" and src[1] in tainted)
+
         changed = True
         while changed:
             changed = False
             for x in A.walk(f[4]):
                 if isinstance(x, tuple) and x and x[0] == "let" and x[2][0] == "pbind":
                     src = x[4]
-                    is_hash = (src[0] == "call" and A.show(src[1]) == "Hash.hash") or (src[0] == "index" and A.show(src[1]).endswith("entry_hashes")) or (src[0] == "var" and src[1] in tainted)
-                    if is_hash and x[2][1] not in tainted:
+                    if is_hash(src) and x[2][1] not in tainted:
                         tainted.add(x[2][1])
                         changed = True
         for x in A.walk(f[4]):
             if not (isinstance(x, tuple) and x):
                 continue
             bad = None
-            if x[0] == "call" and x[1][0] == "member" and x[1][1][0] == "var" and x[1][1][1] in tainted and x[1][2] in ("abs", "pow", "negate"):
+            if x[0] == "call" and x[1][0] == "member" and is_hash(x[1][1]) and x[1][2] in ("abs", "pow", "negate"):
                 bad = A.show(x)
-            if x[0] == "un" and x[1] == "-" and x[2][0] == "var" and x[2][1] in tainted:
+            if x[0] == "un" and x[1] == "-" and is_hash(x[2]):
                 bad = A.show(x)
-            if x[0] == "bin" and x[1] in ("+", "-", "*", "^", "/") and any(s[0] == "var" and s[1] in tainted for s in (x[2], x[3])):
+            if x[0] == "bin" and x[1] in ("+", "-", "*", "^", "/") and any(is_hash(s) for s in (x[2], x[3])):
                 bad = A.show(x)
             if bad:
                 n += 1
                 r.find(f"map.abra:{f[1]}:hash-arithmetic:{bad}", MAP, x[-1], f"map.{f[1]}: `{bad}` applies an overflow-capable operation to a hash code, which is an arbitrary 64-bit integer: a key whose hash is the minimum integer stops the program with an overflow error (`%` alone is already non-negative)")
-            if x[0] == "bin" and x[1] == "%" and x[2][0] == "var" and x[2][1] in tainted:
+            if x[0] == "bin" and x[1] == "%" and is_hash(x[2]):
                 n += 1
                 r.ob(True, "", MAP, x[-1], "", sample=f"map.{f[1]}: bucket = {A.show(x)} (Euclidean remainder of the raw hash)")
     r.count("bucket index computations", n, 4, MAP)
@@ -919,11 +941,12 @@ def str_templates(ctx, r):
         else:
             n += 1
             arr, idx = h[2][0][0], h[2][1][0]
-            e = body_expr(h)
+            # the body as one value tree (early returns folded, named intermediate values substituted):
             # if idx == l "" ; else if idx == l - 1 str(arr[idx]) ; else str(arr[idx]) .. ", " .. helper(arr, idx + 1)
+            e = A.canon(h[4])
             ok = False
             try:
-                c1, b1, rest = e[1], e[2], e[3][1][0][1]
+                c1, b1, rest = e[1], e[2], e[3]
                 c2, b2, b3 = rest[1], rest[2], rest[3]
                 t1 = norm_tpl(str_template(b1, {}, fns))
                 t2 = norm_tpl(str_template(b2, {}, fns))
@@ -953,6 +976,15 @@ def str_templates(ctx, r):
             want.append(", " if i < k - 1 else ")")
         check(ty, norm_tpl(want), lambda f=f: norm_tpl(str_template(body_expr(f), {}, fns)))
     r.count("ToString templates", n, 11, PRELUDE)
+
+
+def conjuncts(e):
+    """The conditions joined by `and` in a test (each must hold when the branch is taken)."""
+    if isinstance(e, tuple) and e and e[0] == "bin" and e[1] == "and":
+        return conjuncts(e[2]) + conjuncts(e[3])
+    if isinstance(e, tuple) and e and e[0] == "paren":
+        return conjuncts(e[1])
+    return [e]
 
 
 @rule("CHAIN-WALK", ["C27"], "collision chains in core/map are walked with an unconditional advance, a trailing pointer that is always the predecessor, a full (hash and key) match test, and slots whose parallel arrays are all written")
@@ -1010,7 +1042,7 @@ def chain_walk(ctx, r):
                     if isinstance(n, tuple):
                         for i, c in enumerate(n):
                             if isinstance(c, (tuple, list)):
-                                a2 = acc + [A.show(n[1])] if n and n[0] == "if" and i == 2 else acc
+                                a2 = acc + [A.show(c_) for c_ in conjuncts(n[1])] if n and n[0] == "if" and i == 2 else acc
                                 got = enclosing(c, target, a2)
                                 if got is not None:
                                     return got
@@ -1021,16 +1053,25 @@ def chain_walk(ctx, r):
                                 return got
                     return None
                 conds = enclosing(w[2], h, []) or []
-                txt = " && ".join(conds).replace(" ", "")
-                okm = f"self.entry_hashes[{cur}]==hash_code" in txt and f"self.entry_keys[{cur}]==key" in txt
+                cs = [c_.replace(" ", "").strip("()") for c_ in conds]
+                okm = any(re.fullmatch(rf"self\.entry_hashes\[{re.escape(cur)}\]==\w+|\w+==self\.entry_hashes\[{re.escape(cur)}\]", c_) for c_ in cs) and any(re.fullmatch(rf"self\.entry_keys\[{re.escape(cur)}\]==\w+|\w+==self\.entry_keys\[{re.escape(cur)}\]", c_) for c_ in cs)
                 r.ob(okm, f"map.abra:{f[1]}:match-test", MAP, h[-1], f"map.{f[1]}: an entry is the sought one only if its stored hash equals the key's hash and its key equals the key; the hit is taken under `{' && '.join(conds)}`", sample=f"map.{f[1]}: hit under {' && '.join(conds)}")
         # slots: reuse branch and create branch write the same parallel arrays
         for x in A.walk(f[4]):
             if isinstance(x, tuple) and x and x[0] == "if" and "free_list" in A.show(x[1]) and x[3] is not None:
-                wr = sorted({A.show(s[2][1]) for s in A.walk(x[2]) if isinstance(s, tuple) and s and s[0] == "assign" and s[2][0] == "index" and "entry_" in A.show(s[2][1])})
-                pu = sorted({A.show(s[1][1]) for s in A.walk(x[3]) if isinstance(s, tuple) and s and s[0] == "call" and s[1][0] == "member" and s[1][2] == "push" and "entry_" in A.show(s[1][1])})
+                def pushes(b):
+                    return sorted({A.show(s[1][1]) for s in A.walk(b) if isinstance(s, tuple) and s and s[0] == "call" and s[1][0] == "member" and s[1][2] == "push" and "entry_" in A.show(s[1][1])})
+                # which branch creates a slot (it pushes) and which reuses one: by what they do, then checked against the test
+                create_b, reuse_b = (x[3], x[2]) if pushes(x[3]) or not pushes(x[2]) else (x[2], x[3])
+                ctxt = A.show(x[1]).replace(" ", "").strip("()")
+                then_is_reuse = True if re.fullmatch(r"self\.free_list!=-1|-1!=self\.free_list|self\.free_list>=0", ctxt) else (False if re.fullmatch(r"self\.free_list==-1|-1==self\.free_list|self\.free_list<0", ctxt) else None)
+                r.ob(then_is_reuse is not None and (reuse_b is x[2]) == then_is_reuse, f"map.abra:{f[1]}:free-list-test-inverted", MAP, x[-1],
+                     f"map.{f[1]}: a slot is taken from the free list exactly when the free list is not empty (free_list != -1); the branch that reuses a slot runs under `{'' if reuse_b is x[2] else 'not '}{A.show(x[1])}`",
+                     sample=f"map.{f[1]}: reuse iff free_list != -1")
+                wr = sorted({A.show(s[2][1]) for s in A.walk(reuse_b) if isinstance(s, tuple) and s and s[0] == "assign" and s[2][0] == "index" and "entry_" in A.show(s[2][1])})
+                pu = pushes(create_b)
                 # the link of a vacant slot is the free-list link: it must be read (popping the free list) before the slot's link is overwritten
-                stm = x[2][1]
+                stm = reuse_b[1]
                 pop_i = [i for i, s_ in enumerate(stm) if s_[0] == "assign" and A.show(s_[2]).endswith("free_list") and s_[3][0] == "index" and A.show(s_[3][1]).endswith("entry_nexts")]
                 for i in pop_i:
                     slot = A.show(stm[i][3][2])
@@ -1041,7 +1082,10 @@ def chain_walk(ctx, r):
                 r.ob(bool(pop_i), f"map.abra:{f[1]}:free-list-not-popped", MAP, x[-1], f"map.{f[1]}: reusing a free slot must advance free_list to that slot's link")
                 n_slot += 1
                 r.ob(wr == pu and len(wr) >= 5, f"map.abra:{f[1]}:slot-arrays-disagree", MAP, x[-1], f"map.{f[1]}: reusing a free slot writes {wr} while creating a slot pushes {pu}: every per-entry array must be written in both cases, or a reused slot keeps a stale key, value, hash, link or occupancy", sample=f"map.{f[1]}: reuse and create both write {len(wr)} per-entry arrays")
-    r.count("collision-chain walks", n_walk, 3, MAP)
+    # an operation that walks a chain does so itself or through a helper of the map that does
+    walkers = {f[1] for f in fns if f[4] is not None and any(isinstance(w, tuple) and w and w[0] == "while" and any(isinstance(s, tuple) and s and s[0] == "assign" and s[2][0] == "var" and s[3][0] == "index" and A.show(s[3][1]).endswith("entry_nexts") and A.show(s[3][2]) == s[2][1] for s in A.walk(w[2])) for w in A.walk(f[4]))}
+    via = sum(1 for f in fns if f[4] is not None for c in A.walk(f[4]) if isinstance(c, tuple) and c and c[0] == "call" and c[1][0] == "member" and A.show(c[1][1]) == "self" and c[1][2] in walkers)
+    r.count("collision-chain walks (own loops and calls of a walking helper)", n_walk + via, 3, MAP)
     r.count("slot allocation sites", n_slot, 1, MAP)
 
 
